@@ -8,7 +8,8 @@
 From Coq Require Import NArith List Bool.
 From StunV Require Import Base.ListAux Base.Bytes Base.Outcome Base.Slice
   Model.MsgType Model.Message Model.Rfc Model.Attrs Model.Ops Model.Abstract
-  Proofs.DecodeProofs Proofs.SetterProofs Proofs.CanonicalProofs Proofs.EncodeProofs Proofs.HistoryProofs.
+  Proofs.DecodeProofs Proofs.SetterProofs Proofs.CanonicalProofs Proofs.EncodeProofs Proofs.HistoryProofs
+  Proofs.TypeInHeaderProofs.
 Import ListNotations.
 Open Scope N_scope.
 
@@ -120,4 +121,33 @@ Example C03_decoded_padding_survives_refuted :
   | Ok m' => nthN (bytes (m_raw m')) 25 0 = 0xEE
   | _ => False
   end.
+Proof. vm_compute. reflexivity. Qed.
+
+(* The transaction-ID setter writes the twelve bytes of its value over bytes 8..20 of the header -
+   whether or not the TransactionID FIELD already held that value (a caller may have assigned it), and
+   whatever the bytes held - and nothing else; a decode of the result reads that ID back. *)
+Theorem C03_set_tid_writes_the_field : forall m tid m', wf (m_raw m) -> 20 <= len (m_raw m) ->
+  lenN tid = 12 -> apply_setter m (STid tid) = Ok m' ->
+  bytes (m_raw m') = take 8 (bytes (m_raw m)) ++ tid ++ drop 20 (bytes (m_raw m)) /\ m_tid m' = tid.
+Proof. exact set_tid_writes. Qed.
+Print Assumptions C03_set_tid_writes_the_field.
+
+Theorem C03_set_tid_then_decode : forall m tid m1 m2, wf (m_raw m) -> 20 <= len (m_raw m) ->
+  lenN tid = 12 -> apply_setter m (STid tid) = Ok m1 -> decode m1 = (m2, Ok tt) -> m_tid m2 = tid.
+Proof. exact set_tid_then_decode. Qed.
+Print Assumptions C03_set_tid_then_decode.
+
+(* non-vacuity: a header whose bytes carry one ID and whose field already holds ANOTHER (the one about to
+   be set): the setter still writes it, and the decode reads it back *)
+Example C03_set_tid_nonvacuous :
+  let raw := be16 1 ++ be16 0 ++ be32 554869826 ++ repeatN 7 12 in
+  let tid := [1;2;3;4;5;6;7;8;9;10;11;12] in
+  let m := mkMsg 1 0 0 tid [] true (mkSlice raw 20 20) in
+  match apply_setter m (STid tid) with
+  | Ok m1 => match decode m1 with
+             | (m2, Ok tt) => list_eqb N.eqb (m_tid m2) tid && list_eqb N.eqb (take 12 (drop 8 (bytes (m_raw m1)))) tid
+             | _ => false
+             end
+  | _ => false
+  end = true.
 Proof. vm_compute. reflexivity. Qed.
